@@ -205,6 +205,19 @@ func c17R1(c *Check, validate, merge, urls *ssa.Function) {
 						continue
 					}
 					for cond, pol := range ff.At(ld) {
+						// the same latch kept as a counter: `n++; if n > 1 { refuse }` with n a loop variable that starts at 0
+						// where the chain starts and is only ever incremented
+						if x, op, k, isCmp := cmpWithConstInt(cond); isCmp {
+							more := (op == token.GTR && k == 1 && pol) || (op == token.GEQ && k == 2 && pol) || (op == token.LEQ && k == 1 && !pol) || (op == token.LSS && k == 2 && !pol)
+							if more {
+								if why, isCounter := counterLatch(x); isCounter {
+									okLatch = true
+									if why != "" {
+										latchBad = why
+									}
+								}
+							}
+						}
 						if ph, isPhi := cond.(*ssa.Phi); isPhi && pol && isBool(ph.Type()) {
 							for _, e := range ph.Edges {
 								if b, isC := constBool(e); isC && b {
@@ -408,7 +421,7 @@ func c17R2(c *Check, validate, merge, defaults, oidcURLs *ssa.Function) {
 	}
 	if c.Anchor("C17.R2", "call of the scope-defaulting helper in the merge loop", defCall != nil) {
 		okArg := false
-		if call, _, ok := asCall(defCall.Common().Args[0]); ok && isCallTo(call, pkgCfgV1+".Filter.GetOidc") {
+		if call, _, ok := asCall(resolveCell(stripConv(defCall.Common().Args[0]))); ok && isCallTo(call, pkgCfgV1+".Filter.GetOidc") {
 			okArg = true
 		}
 		head := loopHeadOf(defCall.Block())
@@ -1166,4 +1179,73 @@ func defaultConfigNotAppended(c *Check, rule string) {
 		}
 	}
 	c.Obl(n >= 1, rule, "appends-in-loader", "-", fmt.Sprintf("%d append sites in the loader", n), "no append found in the loader (anchor lost)")
+}
+
+// counterLatch: x is `n + 1` (or n) for an integer loop variable n whose merged values are the constant 0
+// arriving from outside the loop, n itself, or n + a positive constant. Returns ("", true) for a monotone
+// counter, (reason, true) for a counter that can be reset or decremented inside the loop, (_, false) when
+// x is not of this shape.
+func counterLatch(x ssa.Value) (string, bool) {
+	x = stripConv(x)
+	if bo, ok := x.(*ssa.BinOp); ok && bo.Op == token.ADD {
+		if k, isK := constInt(bo.Y); isK && k > 0 {
+			x = stripConv(bo.X)
+		}
+	}
+	ph, ok := x.(*ssa.Phi)
+	if !ok {
+		return "", false
+	}
+	loopHead := false
+	for _, pb := range ph.Block().Preds {
+		if ph.Block().Dominates(pb) && blockReaches(ph.Block(), pb) {
+			loopHead = true
+		}
+	}
+	if !loopHead {
+		return "", false
+	}
+	web := map[*ssa.Phi]bool{}
+	var collect func(p *ssa.Phi)
+	collect = func(p *ssa.Phi) {
+		if web[p] {
+			return
+		}
+		web[p] = true
+		for _, e := range p.Edges {
+			if q, ok := stripConv(e).(*ssa.Phi); ok {
+				collect(q)
+			}
+			if bo, ok := stripConv(e).(*ssa.BinOp); ok && bo.Op == token.ADD {
+				if q, ok := stripConv(bo.X).(*ssa.Phi); ok {
+					collect(q)
+				}
+			}
+		}
+	}
+	collect(ph)
+	for p := range web {
+		for i, e := range p.Edges {
+			e = stripConv(e)
+			if q, ok := e.(*ssa.Phi); ok && web[q] {
+				continue
+			}
+			if bo, ok := e.(*ssa.BinOp); ok && bo.Op == token.ADD {
+				if q, isQ := stripConv(bo.X).(*ssa.Phi); isQ && web[q] {
+					if k, isK := constInt(bo.Y); isK && k > 0 {
+						continue
+					}
+				}
+			}
+			if k, isK := constInt(e); isK && k == 0 {
+				pred := p.Block().Preds[i]
+				if !blockReaches(p.Block(), pred) || pred.Dominates(p.Block()) {
+					continue
+				}
+				return "the counter is reset inside the loop at " + pred.String(), true
+			}
+			return "the counter is overwritten with " + descDepth(e, 2), true
+		}
+	}
+	return "", true
 }
